@@ -65,6 +65,13 @@ fn worker() -> ! {
                 };
                 mt::run_mt(&storm, &ext, &c, dir.path(), &mut max_handle)
             }
+            Some("mtpart") => {
+                let c: mt::PartCase = match serde_json::from_value(v["c"].clone()) {
+                    Ok(c) => c,
+                    Err(e) => return json!({"ok": false, "sig": "bad-case", "msg": e.to_string()}),
+                };
+                mt::run_partition(&storm, &c, dir.path(), &mut max_handle)
+            }
             _ => json!({"ok": false, "sig": "bad-case", "msg": "unknown case type"}),
         }
     })
@@ -110,7 +117,7 @@ fn panic_sig(tail: &str) -> String {
 }
 
 fn judge(check: &Check, case: &Value, source: &str, out: &Outcome) -> Judged {
-    let is_mt = case["t"] == "mt";
+    let is_mt = case["t"] == "mt" || case["t"] == "mtpart";
     let death = |pre: &str, how: &str, tail: &str| -> Fail {
         let (api, variant, line) = last_op(tail);
         if is_mt {
@@ -138,6 +145,10 @@ fn judge(check: &Check, case: &Value, source: &str, out: &Outcome) -> Judged {
                     check.bump(&format!("mt_{k}"), v["stats"][k].as_u64().unwrap_or(0));
                 }
                 let c = &case["c"];
+                if case["t"] == "mtpart" {
+                    let class = format!("mt|shared-handle-partition|T{}|chunk{}|m{}", c["threads"], c["chunk"], c["method"].as_u64().unwrap_or(0) % 3);
+                    return Judged { class, nontrivial: true, result };
+                }
                 let class = format!("mt|T{}|w{}|disks{}", c["threads"], c["writable"].as_bool().unwrap_or(false) as u8, c["disks"].as_array().map(|a| a.len()).unwrap_or(0));
                 return Judged { class, nontrivial: c["threads"].as_u64().unwrap_or(0) >= 2 && v["discard"].is_null(), result };
             }
@@ -300,6 +311,13 @@ fn main() {
         }
         let c = mt::MtCase { disks, threads: 2 + (i % 7) as u8, ops: 200, seed: mrng.random(), writable: i % 2 == 0 };
         cases.push(("mt".into(), json!({"t": "mt", "c": serde_json::to_value(&c).unwrap()})));
+    }
+
+    // shared file handle drained by several threads
+    let n_part = check.tier.pick(12usize, 200);
+    for i in 0..n_part {
+        let c = mt::PartCase { threads: [2u8, 3, 4, 8][i % 4], chunk: [4096u32, 65536, 131072, 8, 1000 * 8][i % 5], size: [1u32 << 20, 3 << 19, 1 << 22][i % 3], rounds: 3, method: (i % 3) as u8 };
+        cases.push(("mt".into(), json!({"t": "mtpart", "c": serde_json::to_value(&c).unwrap()})));
     }
 
     // ---------------------------------------------------------------- run
